@@ -47,7 +47,7 @@ def floors(tier):
     return {"evaluations": 600 if tier == "quick" else 15000, "distinct": 600 if tier == "quick" else 15000,
             "counters": {"style_documents": 250, "styled_cells_reloaded": 2000, "style_attributes_compared": 30000, "unstyled_cells_compared": 2500, "stroke_scripts": 400,
                          "strokes": 3000, "edges_superseded": 500, "border_cells_judged_open": 20000, "border_cells_judged_reloaded": 5000, "merged_tables": 40,
-                         "readonly_fixtures": 40, "contract:stroke_order": 3000, "mutated_after_apply": 60, "bg_images": 30, "near_duplicate_styles": 100},
+                         "readonly_fixtures": 40, "contract:stroke_order": 3000, "mutated_after_apply": 60, "bg_images": 30, "near_duplicate_styles": 100, "cells_restyled_after_a_save": 500, "two_table_stroke_scripts": 60, "border_tables_reshaped_first": 60},
             "hist_sizes": {"font_family": 150 if tier == "quick" else 185}}
 
 
@@ -259,26 +259,50 @@ def style_case(case, rec):
                     break
             rec.violation("save_or_reopen_raised", {"exc": type(e).__name__, "frame": fr, "part": "styles"}, {"msg": str(e)[:200]}, case=case)
             return
-        t2 = doc2.sheets[0].tables[0]
-        for r in range(R):
-            for c in range(C):
-                got = style_tuple(t2.cell(r, c).style)
-                if (r, c) in want:
-                    rec.count("styled_cells_reloaded")
-                    rec.count("style_attributes_compared", len(STYLE_ATTRS))
-                    w = want[(r, c)]
-                    bad = [a for a in STYLE_ATTRS if got[a] != w[a]]
-                    if bad:
-                        rec.violation("style_readback", {"view": "reloaded", "attr": bad[0], "header_cell": r < hr or c < hc},
-                                      {"pos": [r, c], "attrs": {a: [got[a], w[a]] for a in bad[:4]}, "style_name": applied[(r, c)].name}, case=case)
-                    if t2.cell(r, c).style.name != applied[(r, c)].name:
-                        rec.violation("style_readback", {"view": "reloaded", "attr": "name", "header_cell": r < hr or c < hc},
-                                      {"pos": [r, c], "got": t2.cell(r, c).style.name, "want": applied[(r, c)].name}, case=case)
-                else:
-                    rec.count("unstyled_cells_compared")
-                    if got != before[r][c]:
-                        rec.violation("unstyled_cell_changed", {"attr": first_diff(got, before[r][c]), "header_cell": r < hr or c < hc},
-                                      {"pos": [r, c], "got": got, "before": before[r][c]}, case=case)
+        def check_reloaded(doc2, want, stage):
+            t2 = doc2.sheets[0].tables[0]
+            for r in range(R):
+                for c in range(C):
+                    got = style_tuple(t2.cell(r, c).style)
+                    if (r, c) in want:
+                        rec.count("styled_cells_reloaded")
+                        rec.count("style_attributes_compared", len(STYLE_ATTRS))
+                        w = want[(r, c)]
+                        bad = [a for a in STYLE_ATTRS if got[a] != w[a]]
+                        if bad:
+                            rec.violation("style_readback", {"view": stage, "attr": bad[0], "header_cell": r < hr or c < hc},
+                                          {"pos": [r, c], "attrs": {a: [got[a], w[a]] for a in bad[:4]}, "style_name": applied[(r, c)].name}, case=case)
+                        if t2.cell(r, c).style.name != applied[(r, c)].name:
+                            rec.violation("style_readback", {"view": stage, "attr": "name", "header_cell": r < hr or c < hc},
+                                          {"pos": [r, c], "got": t2.cell(r, c).style.name, "want": applied[(r, c)].name}, case=case)
+                    else:
+                        rec.count("unstyled_cells_compared")
+                        if got != before[r][c]:
+                            rec.violation("unstyled_cell_changed", {"attr": first_diff(got, before[r][c]), "header_cell": r < hr or c < hc},
+                                          {"pos": [r, c], "got": got, "before": before[r][c]}, case=case)
+        check_reloaded(doc2, want, "reloaded")
+        # the same open document, already saved once, restyled and saved again: a cell that carried a style in the first file
+        # shows the new style in full - also when the new style sets nothing but text attributes
+        if rng.random() < .6 and applied:
+            from numbers_parser import RGB
+            try:
+                plain = doc.add_style(name=f"Text only {case['rseed'] % 997}", bold=rng.random() < .5, italic=rng.random() < .5,
+                                      font_size=float(rng.randrange(8, 40)), font_color=RGB(rng.randrange(256), rng.randrange(256), rng.randrange(256)))
+            except Exception as e:  # noqa: BLE001
+                rec.violation("add_style_raised", {"exc": type(e).__name__}, {"msg": str(e)[:200], "stage": "after-first-save"}, case=case)
+                return
+            for pos in rng.sample(sorted(applied), max(1, len(applied) // 2)):
+                st = plain if rng.random() < .6 else rng.choice(styles)[1]
+                t.set_cell_style(pos[0], pos[1], st)
+                applied[pos] = st
+                rec.count("cells_restyled_after_a_save")
+            want = {pos: style_tuple(st) for pos, st in applied.items()}
+            try:
+                doc3 = reopen(doc, str(case["rseed"]) + "-again")
+            except Exception as e:  # noqa: BLE001
+                rec.violation("save_or_reopen_raised", {"exc": type(e).__name__, "frame": "?", "part": "styles-second-save"}, {"msg": str(e)[:200]}, case=case)
+                return
+            check_reloaded(doc3, want, "reloaded-after-restyle")
     rec.count("style_documents")
     rec.case(("styles", case["rseed"]), nontrivial=True)
 
@@ -336,38 +360,75 @@ def judge_borders(t, model, rec, case, view, nstrokes, last=None):
 
 
 def border_case(case, rec):
-    """case: {"shape":[R,C], "merges":[...], "strokes":[[side,r,c,len,width,[rgb],pattern],...], "save_points":[...]}"""
+    """case: {"shape":[R,C], "merges":[...], "strokes":[[side,r,c,len,width,[rgb],pattern(,table)],...], "save_points":[...],
+    "tables": 1|2, "prehistory": [...]}.  With two tables the strokes alternate between them (same sides, same row and column
+    numbers: the strokes of one table are not the other's); with a prehistory the first table was given its shape by
+    deleting and adding rows/columns before the first stroke (a position means the cell that is there now)."""
     from numbers_parser import RGB, Border, Document
     from vf.ref.edges import Edges
     from vf.ref import a1
     R, C = case["shape"]
+    ntab = case.get("tables", 1)
+    pre = case.get("prehistory", [])
     with warnings.catch_warnings(record=True) as wlog:
         warnings.simplefilter("always")
-        doc = Document(num_rows=R, num_cols=C, num_header_rows=0, num_header_cols=0)
+        r_extra = sum(1 for x in pre if x == "delete_first_row") + sum(1 for x in pre if x == "delete_last_row_then_add")*0
+        c_extra = sum(1 for x in pre if x == "delete_first_col")
+        doc = Document(num_rows=R + r_extra, num_cols=C + c_extra, num_header_rows=0, num_header_cols=0)
         t = doc.sheets[0].tables[0]
+        try:
+            for x in pre:
+                if x == "delete_first_row":
+                    t.delete_row(start_row=0)
+                elif x == "delete_first_col":
+                    t.delete_column(start_col=0)
+                elif x == "delete_last_row_then_add":
+                    t.delete_row()
+                    t.add_row()
+                elif x == "delete_last_col_then_add":
+                    t.delete_column()
+                    t.add_column()
+                rec.count("border_tables_reshaped_first")
+        except Exception as e:  # noqa: BLE001 - C03's business
+            rec.build_failure(f"border prehistory: {type(e).__name__}")
+            return
+        tables = [t]
+        if ntab == 2:
+            tables.append(doc.sheets[0].add_table("Second", num_rows=R, num_cols=C, num_header_rows=0, num_header_cols=0))
+            rec.count("two_table_stroke_scripts")
         for m in case["merges"]:
             t.merge_cells(a1.cell_name(m[0], m[1]) + ":" + a1.cell_name(m[2], m[3]))
-        model = Edges(R, C, case["merges"])
+        models = [Edges(R, C, case["merges"])] + [Edges(R, C, []) for _ in tables[1:]]
         if case["merges"]:
             rec.count("merged_tables")
-        for i, (side, r, c, ln, width, color, pattern) in enumerate(case["strokes"]):
+
+        def judge_all(doc_, view, step):
+            ok = True
+            for k_, mdl in enumerate(models):
+                tb = doc_.sheets[0].tables[k_]
+                ok = judge_borders(tb, mdl, rec, case, view if k_ == 0 else view + "/second-table", step) and ok
+            return ok
+        for i, stroke in enumerate(case["strokes"]):
+            side, r, c, ln, width, color, pattern = stroke[:7]
+            k_ = (stroke[7] if len(stroke) > 7 else 0) % len(tables)
+            tb, model = tables[k_], models[k_]
             b = Border(width, RGB(*color), pattern)
             edges = list(model.edges_of_stroke(side, r, c, ln))
             before = any(((model.H if k == "H" else model.V).get((rr, cc)) is not None) for k, rr, cc in edges)
             nwarn = len(wlog)
             try:
-                t.set_cell_border(r, c, side, b, ln)
+                tb.set_cell_border(r, c, side, b, ln)
             except Exception as e:  # noqa: BLE001
                 rec.violation("set_cell_border_raised", {"exc": type(e).__name__, "merged": bool(case["merges"])}, {"stroke": case["strokes"][i], "msg": str(e)[:200]}, case=case)
                 return
             ignored = model.stroke(side, r, c, ln, bdesc(width, color, pattern))
             warned = any("is merged; border not set" in str(x.message) for x in wlog[nwarn:])
-            if bool(ignored) != warned and case["merges"]:
+            if bool(ignored) != warned and case["merges"] and k_ == 0:
                 rec.violation("merged_edge_warning", {"expected_warning": bool(ignored)}, {"stroke": case["strokes"][i]}, case=case)
             rec.count("strokes")
             if before:
                 rec.count("edges_superseded")
-            if not judge_borders(t, model, rec, case, "open", i + 1, last=before):
+            if not judge_borders(tb, model, rec, case, "open" if k_ == 0 else "open/second-table", i + 1, last=before):
                 return
             if i in case.get("save_points", []):
                 try:
@@ -375,16 +436,16 @@ def border_case(case, rec):
                 except Exception as e:  # noqa: BLE001
                     rec.violation("save_or_reopen_raised", {"exc": type(e).__name__, "frame": "?", "part": "borders"}, {"msg": str(e)[:200]}, case=case)
                     return
-                if not judge_borders(doc2.sheets[0].tables[0], model, rec, case, "reloaded", i + 1):
+                if not judge_all(doc2, "reloaded", i + 1):
                     return
         try:
             doc2 = reopen(doc, "bf")
         except Exception as e:  # noqa: BLE001
             rec.violation("save_or_reopen_raised", {"exc": type(e).__name__, "frame": "?", "part": "borders"}, {"msg": str(e)[:200]}, case=case)
             return
-        if judge_borders(doc2.sheets[0].tables[0], model, rec, case, "reloaded", len(case["strokes"])):
+        if judge_all(doc2, "reloaded", len(case["strokes"])):
             # the open document after the save
-            judge_borders(t, model, rec, case, "open", len(case["strokes"]))
+            judge_all(doc, "open", len(case["strokes"]))
     rec.count("stroke_scripts")
 
 
@@ -427,7 +488,16 @@ def rand_script(rng):
         ln = 1 if merges else rng.randint(1, min(6, maxlen))
         strokes.append([side, r, c, ln, rng.randrange(1, 41) / 4.0, [rng.randrange(256) for _ in range(3)], rng.choice(["solid", "dashes", "dots"])])
     sp = sorted({rng.randrange(n) for _ in range(rng.choice([0, 0, 1, 2]))})
-    return {"part": "border", "shape": [R, C], "merges": merges, "strokes": strokes, "save_points": sp}
+    case = {"part": "border", "shape": [R, C], "merges": merges, "strokes": strokes, "save_points": sp}
+    k = rng.random()
+    if k < .25:
+        case["tables"] = 2
+        for i_, st_ in enumerate(strokes):
+            # the same side / row / column numbers in both tables, most of the time
+            st_.append(i_ % 2 if rng.random() < .8 else rng.randrange(2))
+    elif k < .45 and not merges:
+        case["prehistory"] = rng.sample(["delete_first_row", "delete_first_col", "delete_last_row_then_add", "delete_last_col_then_add"], rng.randint(1, 2))
+    return case
 
 
 def run_borders(spec, rec):
